@@ -36,7 +36,7 @@ def r1(ctx):
     ctx.check("Engine::send_request", render(item) == "From::from(request)", "the item delivered is the request itself",
               sites=[t["sp"]], got=render(item), key="item")
     ctx.check("Engine::send_request", not any(b.blocks[x]["i"] == bi for x in ()) and not _in_loop(b, bi), "not in a loop", key="no-loop")
-    cases = b.local_cases(0)
+    cases = b.expanded_cases(0)
     oks = [(g, term) for g, term, _ in cases if render(term).startswith("Result::Ok")]
     good = len(oks) == 1
     if good:
